@@ -272,7 +272,7 @@ pub fn inline_code(input: ParseString) -> ParseResult<ParagraphElement> {
 // inline-equation := equation-sigil, +text, equation-sigil ;
 pub fn inline_equation(input: ParseString) -> ParseResult<ParagraphElement> {
   let (input, _) = equation_sigil(input)?;
-  let (input, txt) = many0(tuple((is_not(equation_sigil),alt((backslash,text)))))(input)?;
+  let (input, txt) = many1(tuple((is_not(equation_sigil),alt((backslash,text)))))(input)?;
   let (input, _) = equation_sigil(input)?;
   let mut txt = txt.into_iter().map(|(_,tkn)| tkn).collect();
   let mut eqn = Token::merge_tokens(&mut txt).unwrap();
